@@ -134,8 +134,18 @@ def _parse(rel):
         raise BrokenTie("cannot parse %s: %s" % (rel, e))
 
 
+_FUNC_AST = {}
+
+
 def _func_ast(fn):
     """ast.FunctionDef of a python function object (from its current source)"""
+    if fn in _FUNC_AST:
+        return _FUNC_AST[fn]
+    _FUNC_AST[fn] = r = _func_ast0(fn)
+    return r
+
+
+def _func_ast0(fn):
     try:
         src = textwrap.dedent(inspect.getsource(fn))
         t = ast.parse(src)
@@ -773,6 +783,48 @@ def control_action_tables(wntr, inst, R):
     return slots, notes, mapping, sorted(names), sorted(internal)
 
 
+def epanet_functions():
+    """(where, FunctionDef) of everything EpanetSimulator.run_sim runs on the SAME wn: the EpanetSimulator /
+    WaterNetworkSimulator methods, write_inpfile, the call closure of InpFile.write inside wntr/epanet/io.py (by name), and the
+    MSX writer / result reader that receive wn when wn._msx is set"""
+    out = []
+    t = _parse("wntr/sim/epanet.py")
+    fns = _functions_of(t)
+    if not any(q == "EpanetSimulator.run_sim" for q, n, c in fns):
+        raise BrokenTie("wntr/sim/epanet.py has no EpanetSimulator.run_sim")
+    out += [("sim/epanet.py:%s" % q, n) for q, n, c in fns]
+    out += [("sim/core.py:%s" % q, n) for q, n, c in _functions_of(_parse("wntr/sim/core.py")) if c == "WaterNetworkSimulator"]
+    t = _parse("wntr/network/io.py")
+    f = [n for q, n, c in _functions_of(t) if q == "write_inpfile"]
+    if not f:
+        raise BrokenTie("wntr/network/io.py has no write_inpfile")
+    out.append(("network/io.py:write_inpfile", f[0]))
+    t = _parse("wntr/epanet/io.py")
+    cl = _closure_in_module(t, ["write"])
+    if not any(q == "InpFile.write" for q, n, c in cl):
+        raise BrokenTie("wntr/epanet/io.py has no InpFile.write")
+    for q, n, c in cl:
+        if c in ("InpFile", "_EpanetRule") or c is None:
+            if q.split(".")[-1].startswith("_read") or q.split(".")[-1] in ("read",):
+                continue
+            out.append(("epanet/io.py:%s" % q, n))
+    try:
+        t = _parse("wntr/epanet/msx/io.py")
+        for q, n, c in _functions_of(t):
+            if c in ("MsxBinFile",) or q in ("MsxFile.write",) or (c == "MsxFile" and n.name.startswith("_write")):
+                out.append(("epanet/msx/io.py:%s" % q, n))
+    except BrokenTie:
+        pass
+    return out
+
+
+def epanet_write_tables(wntr, inst, R):
+    E = WriteScanner(wntr, inst, R)
+    for where, n in epanet_functions():
+        E.scan_function(n, where, "internal")
+    return E
+
+
 def sim_write_tables(wntr, inst, R):
     S = WriteScanner(wntr, inst, R)
     # 1. the simulator modules: every function
@@ -784,20 +836,11 @@ def sim_write_tables(wntr, inst, R):
         for q, n, c in fns:
             S.scan_function(n, "%s:%s" % (rel.split("wntr/")[1], q), "internal")
     # 2. EpanetSimulator.run_sim -> write_inpfile -> InpFile.write -> _write_* (call closure inside wntr/epanet/io.py)
-    t = _parse("wntr/network/io.py")
-    f = [n for q, n, c in _functions_of(t) if q == "write_inpfile"]
-    if not f:
-        raise BrokenTie("wntr/network/io.py has no write_inpfile")
-    S.scan_function(f[0], "network/io.py:write_inpfile", "internal")
-    t = _parse("wntr/epanet/io.py")
-    cl = _closure_in_module(t, ["write"])
-    if not any(q == "InpFile.write" for q, n, c in cl):
-        raise BrokenTie("wntr/epanet/io.py has no InpFile.write")
-    for q, n, c in cl:
-        if c in ("InpFile", "_EpanetRule") or c is None:
-            if q.split(".")[-1].startswith("_read") or q.split(".")[-1] in ("read",):
-                continue
-            S.scan_function(n, "epanet/io.py:%s" % q, "internal")
+    E = epanet_write_tables(wntr, inst, R)
+    for k, v in E.slots.items():
+        S.slots.setdefault(k, set()).update(v)
+    S.dropped.update(E.dropped)
+    S.nself += E.nself
     # 3. run-time methods of the control / condition / action classes
     t = _parse("wntr/network/controls.py")
     bases = _class_bases(t)
@@ -981,6 +1024,548 @@ def run_initialises(written):
     return sorted(set(out)), why
 
 
+# =================================================================================================== notReadBeforeWrite
+
+RUNTIME_MODULES = ("wntr/sim/core.py", "wntr/sim/hydraulics.py", "wntr/sim/epanet.py", "wntr/sim/models/constraint.py",
+                   "wntr/sim/models/param.py", "wntr/sim/models/var.py", "wntr/sim/models/utils.py", "wntr/sim/models/constants.py")
+
+
+def runtime_functions():
+    """(where, FunctionDef, self_kind) of the run-time closure of BOTH simulators, over-approximated: every function of the
+    simulator modules and wntr/sim/models, every method of wntr/network/controls.py (self_kind 'control' / 'condition' by base
+    class), the EPANET writer closure, and the WaterNetworkModel methods / properties whose NAME is loaded in those functions"""
+    out = []
+    for rel in RUNTIME_MODULES:
+        for q, n, c in _functions_of(_parse(rel)):
+            out.append(("%s:%s" % (rel.split("wntr/")[1], q), n, "internal"))
+    t = _parse("wntr/network/controls.py")
+    bases = _class_bases(t)
+    for q, n, c in _functions_of(t):
+        kind = "internal"
+        if c and _derives(bases, c, "ControlBase"):
+            kind = "control"
+        elif c and _derives(bases, c, "ControlCondition"):
+            kind = "condition"
+        out.append(("controls.py:%s" % q, n, kind))
+    have = set(w for w, n, k in out)
+    for where, n in epanet_functions():
+        if where not in have:
+            out.append((where, n, "internal"))
+    loaded = set()
+    for w, n, k in out:
+        for m in ast.walk(n):
+            if isinstance(m, ast.Attribute):
+                loaded.add(m.attr)
+    for q, n, c in _functions_of(_parse("wntr/network/model.py")):
+        if c == "WaterNetworkModel" and n.name in loaded and n.name not in ("__init__", "reset_initial_values"):
+            out.append(("model.py:%s" % q, n, "wn"))
+    return out
+
+
+def computed_attribute_vocabulary(action_names):
+    """attribute names that `getattr(obj, <computed>)` can take at run time (ValueCondition / RelativeCondition.evaluate read
+    getattr(source_obj, source_attr); ControlChangeTracker reads getattr(target, attr)): the action attribute names in use, the
+    literal source_attr / threshold_attr of every condition construction site in wntr, the attribute words the rule parser knows
+    (_EpanetRule.generate_control) and TankLevelCondition's accepted set.  Same convention as writtenByActions: a rule text naming
+    any other attribute is outside the modelled input space."""
+    names = set(action_names)
+    for rel in ("wntr/sim/core.py", "wntr/epanet/io.py", "wntr/network/controls.py", "wntr/network/elements.py", "wntr/network/model.py",
+                "wntr/network/io.py"):
+        t = _parse(rel)
+        for n in ast.walk(t):
+            if isinstance(n, ast.Call):
+                f = n.func
+                fn = f.id if isinstance(f, ast.Name) else (f.attr if isinstance(f, ast.Attribute) else None)
+                if fn in ("ValueCondition", "TankLevelCondition", "RelativeCondition", "_conditional_control"):
+                    cands = [n.args[i] for i in (1, 4) if i < len(n.args)] + [k.value for k in n.keywords if k.arg in ("source_attr", "threshold_attr")]
+                    for a in cands:
+                        if isinstance(a, ast.Constant) and isinstance(a.value, str):
+                            names.add(a.value)
+                if fn == "_InternalControlAction":
+                    for a in list(n.args[1:2]) + list(n.args[3:4]):
+                        if isinstance(a, ast.Constant) and isinstance(a.value, str):
+                            names.add(a.value)
+        for q, fnode, c in _functions_of(t):
+            if fnode.name == "generate_control" or (c == "TankLevelCondition" and fnode.name == "__init__"):
+                for n in ast.walk(fnode):
+                    if isinstance(n, ast.Compare):
+                        for comp in n.comparators:
+                            elts = comp.elts if isinstance(comp, (ast.List, ast.Set, ast.Tuple)) else [comp]
+                            for e in elts:
+                                if isinstance(e, ast.Constant) and isinstance(e.value, str) and e.value.isidentifier() and e.value.islower():
+                                    names.add(e.value)
+    return sorted(names)
+
+
+def control_reader_names(field):
+    """names whose Load reads control-side field `field` (itself + every property of a controls.py class whose getter loads self.<field>)"""
+    names = {field}
+    t = _parse("wntr/network/controls.py")
+    for q, n, c in _functions_of(t):
+        if c and any(isinstance(d, ast.Name) and d.id == "property" for d in n.decorator_list):
+            if any(isinstance(m, ast.Attribute) and m.attr == field and isinstance(m.ctx, ast.Load) for m in ast.walk(n)):
+                names.add(n.name)
+    return names
+
+
+def collect_reads(wntr, inst, R, vocab):
+    """name -> list of (compat, where): compat None = any object, else a set of class tags ('Junction', ..., 'Control', 'Rule',
+    'condition', 'WaterNetworkModel') the loaded-from object can be"""
+    S = WriteScanner(wntr, inst, R)
+    reads = {}
+
+    def note(name, X, where, lookup, kind, line):
+        compat = None
+        if isinstance(X, ast.Name):
+            if X.id == "self":
+                compat = {"internal": set(), "wn": {"WaterNetworkModel"}, "control": set(CONTROL_CLASSES), "condition": {"condition"}}[kind]
+            else:
+                what = lookup(X.id, line)
+                if isinstance(what, list):
+                    compat = set(what)
+                elif what == "wn" or X.id in WN_NAMES:
+                    compat = {"WaterNetworkModel"}
+        elif isinstance(X, ast.Attribute) and _chain(X) and ".".join(_chain(X)) in WN_NAMES:
+            compat = {"WaterNetworkModel"}
+        reads.setdefault(name, []).append((compat, "%s:%d" % (where, line)))
+
+    for where, fn, kind in runtime_functions():
+        lookup = S._env(fn, None)
+        for n in ast.walk(fn):
+            if isinstance(n, ast.Attribute) and isinstance(n.ctx, ast.Load):
+                note(n.attr, n.value, where, lookup, kind, n.lineno)
+            elif isinstance(n, ast.Call) and isinstance(n.func, ast.Name) and n.func.id in ("getattr", "hasattr") and len(n.args) >= 2:
+                a = n.args[1]
+                if isinstance(a, ast.Constant) and isinstance(a.value, str):
+                    note(a.value, n.args[0], where, lookup, kind, n.lineno)
+                else:
+                    for v in vocab:
+                        reads.setdefault(v, []).append((None, "%s:%d getattr(%s, %s)" % (where, n.lineno, ast.unparse(n.args[0])[:30], ast.unparse(a)[:30])))
+    return reads
+
+
+def slot_reader_names(slot, inst, R):
+    cls, field = slot
+    if cls in CONTROL_CLASSES:
+        return control_reader_names(field.split(".")[-1]), ("condition" if field.startswith("_condition.") else cls)
+    if cls == "Options":
+        return None, cls
+    o = inst[cls]
+    root = field.split(".")[0]
+    names = {root}
+    for pn in dir(type(o)):
+        if pn.startswith("__"):
+            continue
+        try:
+            st = R.getter_storage(type(o), pn)
+        except BrokenTie:
+            names.add(pn)
+            continue
+        if any(x.split(".")[0] == root for x in st):
+            names.add(pn)
+    return names, cls
+
+
+def first_read(slot, inst, R, reads):
+    """None when no run-time Load can read the slot, else 'name @ where' of one that can"""
+    names, tag = slot_reader_names(slot, inst, R)
+    if names is None:
+        return "options are read throughout"
+    hits = []
+    for nm in sorted(names):
+        for compat, where in reads.get(nm, []):
+            if compat is None or tag in compat:
+                hits.append("%s @ %s" % (nm, where))
+    direct = [h for h in hits if "getattr(" not in h]
+    return (direct or hits or [None])[0]
+
+
+# ---- rule (ii): write dominates read through the ControlChecker protocol
+
+
+def protocol_write_before_read(field):
+    """control-side field F (no prefix): (a) every run-time Load of self.F is inside methods of ONE name B of the ControlBase
+    family, (b) every run-time Store is inside methods of ONE name A, where each `return (True, ...)` is directly preceded by an
+    assignment of self.F in the same block, (c) ControlChecker.check appends a control to its result only under `if do:` with
+    `do, _ = c.A()` for the same c in the same loop body, (d) every call X.B() in the run-time closure is either on an action
+    (loop variable over self._then_actions / self._else_actions inside B itself) or on an X bound from the list returned by a
+    `.check()` call in the same function (loop target, tuple-unpack of L[i], L[i][0]; L may be re-bound to a comprehension over L).
+    Returns (ok, evidence or reason)."""
+    t = _parse("wntr/network/controls.py")
+    bases = _class_bases(t)
+    loads, stores = {}, {}
+    for q, n, c in _functions_of(t):
+        if not c or n.name in CONTROL_DEF_METHODS:
+            continue
+        for m in ast.walk(n):
+            if isinstance(m, ast.Attribute) and m.attr == field:
+                if not (isinstance(m.value, ast.Name) and m.value.id == "self" and _derives(bases, c, "ControlBase")):
+                    return False, "%s is accessed outside the control classes' own methods (%s:%d)" % (field, q, m.lineno)
+                (loads if isinstance(m.ctx, ast.Load) else stores).setdefault(n.name, []).append((q, n))
+    for rel in RUNTIME_MODULES + ("wntr/epanet/io.py", "wntr/network/io.py", "wntr/network/model.py"):
+        for m in ast.walk(_parse(rel)):
+            if isinstance(m, ast.Attribute) and m.attr == field:
+                return False, "%s is accessed in %s:%d" % (field, rel, m.lineno)
+    if len(loads) != 1 or len(stores) != 1:
+        return False, "loads in methods %s, stores in methods %s: not one reader / one writer" % (sorted(loads), sorted(stores))
+    B, A = list(loads)[0], list(stores)[0]
+    # (b)
+    for q, n in stores[A]:
+        def check_block(body):
+            for i, st in enumerate(body):
+                if isinstance(st, ast.Return):
+                    v = st.value
+                    first = v.elts[0] if isinstance(v, ast.Tuple) and v.elts else v
+                    if isinstance(first, ast.Constant) and first.value is True:
+                        prev = body[i - 1] if i else None
+                        ok = (isinstance(prev, ast.Assign) and any(isinstance(x, ast.Attribute) and x.attr == field and isinstance(x.value, ast.Name)
+                                                                   and x.value.id == "self" for x in prev.targets))
+                        if not ok:
+                            return "%s: `return True` at line %d is not directly preceded by an assignment of self.%s" % (q, st.lineno, field)
+                    elif not (isinstance(first, ast.Constant) and first.value is False):
+                        return "%s: return value at line %d is not a literal True / False tuple" % (q, st.lineno)
+                for sub in ("body", "orelse", "finalbody"):
+                    r = check_block(getattr(st, sub, []) or []) if not isinstance(st, (ast.FunctionDef, ast.ClassDef)) else None
+                    if r:
+                        return r
+            return None
+        r = check_block(n.body)
+        if r:
+            return False, r
+    # (c)
+    chk = [n for q, n, c in _functions_of(t) if q == "ControlChecker.check"]
+    if not chk:
+        return False, "no ControlChecker.check"
+    ok_c = False
+    for loop in ast.walk(chk[0]):
+        if isinstance(loop, ast.For) and isinstance(loop.target, ast.Name):
+            cv = loop.target.id
+            st = loop.body
+            if (len(st) == 2 and isinstance(st[0], ast.Assign) and isinstance(st[0].targets[0], ast.Tuple)
+                    and isinstance(st[0].value, ast.Call) and isinstance(st[0].value.func, ast.Attribute) and st[0].value.func.attr == A
+                    and isinstance(st[0].value.func.value, ast.Name) and st[0].value.func.value.id == cv
+                    and isinstance(st[1], ast.If) and isinstance(st[1].test, ast.Name)
+                    and st[1].test.id == st[0].targets[0].elts[0].id and not st[1].orelse):
+                apps = [m for m in ast.walk(st[1]) if isinstance(m, ast.Call) and isinstance(m.func, ast.Attribute) and m.func.attr == "append"]
+                if apps and all(isinstance(a.args[0], ast.Tuple) and isinstance(a.args[0].elts[0], ast.Name) and a.args[0].elts[0].id == cv for a in apps):
+                    other = [m for m in ast.walk(chk[0]) if isinstance(m, ast.Call) and isinstance(m.func, ast.Attribute)
+                             and m.func.attr in ("append", "extend", "insert") and m not in apps]
+                    ok_c = not other
+    if not ok_c:
+        return False, "ControlChecker.check does not have the shape `do, back = c.%s(); if do: result.append((c, back))`" % A
+    # (d)
+    nsites = 0
+    rt = runtime_functions()
+    producers = {"check"}   # .check() and one-level wrappers: functions all of whose returns give back a name bound to a .check() result
+
+    def is_producer_call(v):
+        return isinstance(v, ast.Call) and isinstance(v.func, ast.Attribute) and v.func.attr in producers and not v.args
+
+    for where, fn, kind in rt:
+        names = set(m.targets[0].id for m in ast.walk(fn) if isinstance(m, ast.Assign) and len(m.targets) == 1
+                    and isinstance(m.targets[0], ast.Name) and is_producer_call(m.value))
+        rets = [m for m in ast.walk(fn) if isinstance(m, ast.Return)]
+        other = [m for m in ast.walk(fn) if isinstance(m, ast.Assign) and len(m.targets) == 1 and isinstance(m.targets[0], ast.Name)
+                 and m.targets[0].id in names and not is_producer_call(m.value)]
+        if names and rets and not other and all(isinstance(r.value, ast.Name) and r.value.id in names for r in rets) and not fn.args.args[1:]:
+            producers.add(fn.name)
+    for where, fn, kind in rt:
+        checked = set()   # names bound to a .check() result
+        for m in ast.walk(fn):
+            if isinstance(m, ast.Assign) and len(m.targets) == 1 and isinstance(m.targets[0], ast.Name):
+                v = m.value
+                if is_producer_call(v):
+                    checked.add(m.targets[0].id)
+        if checked:
+            for m in ast.walk(fn):   # re-binding: L = [(c, 0) for c, b in L]
+                if isinstance(m, ast.Assign) and len(m.targets) == 1 and isinstance(m.targets[0], ast.Name) and m.targets[0].id in checked:
+                    v = m.value
+                    is_check = is_producer_call(v)
+                    is_self_comp = (isinstance(v, ast.ListComp) and len(v.generators) == 1 and isinstance(v.generators[0].iter, ast.Name)
+                                    and v.generators[0].iter.id == m.targets[0].id and isinstance(v.generators[0].target, ast.Tuple)
+                                    and isinstance(v.elt, ast.Tuple) and isinstance(v.elt.elts[0], ast.Name)
+                                    and v.elt.elts[0].id == v.generators[0].target.elts[0].id and not v.generators[0].ifs)
+                    if not (is_check or is_self_comp):
+                        return False, "%s:%d re-binds the checked list %s to something else" % (where, m.lineno, m.targets[0].id)
+        bound = {}   # variable -> (line0, line1) ranges where it holds an element of a checked list
+        for m in ast.walk(fn):
+            if isinstance(m, ast.For) and isinstance(m.iter, ast.Name) and m.iter.id in checked and isinstance(m.target, ast.Tuple) \
+                    and isinstance(m.target.elts[0], ast.Name):
+                bound.setdefault(m.target.elts[0].id, []).append((m.lineno, m.end_lineno))
+            if isinstance(m, ast.Assign) and isinstance(m.targets[0], ast.Tuple) and isinstance(m.targets[0].elts[0], ast.Name) \
+                    and isinstance(m.value, ast.Subscript) and isinstance(m.value.value, ast.Name) and m.value.value.id in checked:
+                bound.setdefault(m.targets[0].elts[0].id, []).append((m.lineno, None))
+        action_loops = {}
+        for m in ast.walk(fn):
+            if isinstance(m, ast.For) and isinstance(m.target, ast.Name) and isinstance(m.iter, ast.Attribute) \
+                    and m.iter.attr in ("_then_actions", "_else_actions") and isinstance(m.iter.value, ast.Name) and m.iter.value.id == "self":
+                action_loops.setdefault(m.target.id, []).append((m.lineno, m.end_lineno))
+        rebinds = {}
+        for m in ast.walk(fn):
+            if isinstance(m, (ast.Assign, ast.For)):
+                tg = m.targets if isinstance(m, ast.Assign) else [m.target]
+                for x in tg:
+                    for y in ast.walk(x):
+                        if isinstance(y, ast.Name):
+                            rebinds.setdefault(y.id, []).append(m.lineno)
+        for m in ast.walk(fn):
+            if isinstance(m, ast.Call) and isinstance(m.func, ast.Attribute) and m.func.attr == B:
+                X = m.func.value
+                ok = False
+                if isinstance(X, ast.Name):
+                    if any(l0 <= m.lineno <= l1 for l0, l1 in action_loops.get(X.id, [])) and fn.name == B:
+                        ok = True   # an action's run_control_action
+                    for l0, l1 in bound.get(X.id, []):
+                        if l0 <= m.lineno and (l1 is None or m.lineno <= l1):
+                            # the latest binding of X before the call must be this one
+                            last = max([l for l in rebinds.get(X.id, []) if l <= m.lineno] or [0])
+                            if last == l0:
+                                ok = True
+                elif (isinstance(X, ast.Subscript) and isinstance(X.slice, ast.Constant) and X.slice.value == 0
+                      and isinstance(X.value, ast.Subscript) and isinstance(X.value.value, ast.Name) and X.value.value.id in checked):
+                    ok = True
+                if not ok:
+                    return False, "%s:%d calls %s.%s() on an object not taken from a .check() result" % (where, m.lineno, ast.unparse(X)[:40], B)
+                nsites += 1
+    return True, ("read only in %s (controls.py); assigned in %s directly before every `return True`; ControlChecker.check returns a control "
+                  "only after its %s() returned True; all %d call sites of .%s() take their receiver from a .check() result (or are action calls "
+                  "inside %s)" % (B, A, A, nsites, B, B))
+
+
+# ---- rule (iii): key-guarded memo
+
+
+def guarded_memo_pairs(wntr, inst, R, reads):
+    """[(cls, M, K, evidence)]: method G of an element class whose top-level body contains
+        if self.M is None or <E> != self.K:  h(...)        (h nested in G, the ONLY place that assigns self.K = <E'> and self.M = ...,
+    both unconditionally at the end of h, E' == E textually; `self.M = None` elsewhere is an invalidation and allowed), every other Load of self.M in G comes after that `if` at top level,
+    self.K is loaded only in the test, and no other run-time function loads M or K (no property returns them).  Then a value of M is
+    only ever used when the stored key K equals the key recomputed from definition data, and (K, M) are always assigned together."""
+    out = []
+    et = _parse("wntr/network/elements.py")
+    bases = dict(_class_bases(et))
+    bases.update(_class_bases(_parse("wntr/network/base.py")))
+    src_all = _read_src("wntr/network/elements.py")
+    for q, G, c in _functions_of(et):
+        if c is None or q.count(".") != 1:
+            continue
+        for i, st in enumerate(G.body):
+            if not (isinstance(st, ast.If) and isinstance(st.test, ast.BoolOp) and isinstance(st.test.op, ast.Or) and len(st.test.values) == 2):
+                continue
+            a, b = st.test.values
+            if not (isinstance(a, ast.Compare) and len(a.ops) == 1 and isinstance(a.ops[0], ast.Is) and isinstance(a.comparators[0], ast.Constant)
+                    and a.comparators[0].value is None and isinstance(a.left, ast.Attribute) and isinstance(a.left.value, ast.Name) and a.left.value.id == "self"):
+                continue
+            if not (isinstance(b, ast.Compare) and len(b.ops) == 1 and isinstance(b.ops[0], ast.NotEq)):
+                continue
+            sides = [b.left, b.comparators[0]]
+            ks = [x for x in sides if isinstance(x, ast.Attribute) and isinstance(x.value, ast.Name) and x.value.id == "self"]
+            es = [x for x in sides if x not in ks]
+            if len(ks) != 1 or len(es) != 1:
+                continue
+            M, K, E = a.left.attr, ks[0].attr, ast.unparse(es[0])
+            if not (len(st.body) == 1 and isinstance(st.body[0], ast.Expr) and isinstance(st.body[0].value, ast.Call)
+                    and isinstance(st.body[0].value.func, ast.Name) and not st.orelse):
+                continue
+            hname = st.body[0].value.func.id
+            hs = [x for x in G.body if isinstance(x, ast.FunctionDef) and x.name == hname]
+            if len(hs) != 1:
+                continue
+            h = hs[0]
+            # parameter renaming: E is written with G's local, E' with h's parameter
+            call = st.body[0].value
+            ren = {p.arg: ast.unparse(arg) for p, arg in zip(h.args.args, call.args)}
+            last2 = h.body[-2:]
+            assigned = {}
+            for x in last2:
+                if isinstance(x, ast.Assign) and len(x.targets) == 1 and isinstance(x.targets[0], ast.Attribute) \
+                        and isinstance(x.targets[0].value, ast.Name) and x.targets[0].value.id == "self":
+                    assigned[x.targets[0].attr] = x.value
+            if set(assigned) != {M, K}:
+                continue
+            e2 = assigned[K]
+            e2s = ast.unparse(e2)
+            ch = _chain(e2)
+            if ch and ch[0] in ren:
+                e2s = ren[ch[0]] + e2s[len(ch[0]):]
+            if e2s != E:
+                continue
+            # every store of M / K anywhere in the module is one of these two (or in __init__ / class construction)
+            bad = None
+            for q2, n2, c2 in _functions_of(et):
+                none_stores = set()
+                for m in ast.walk(n2):   # `self.M = None` elsewhere only invalidates the memo
+                    if isinstance(m, ast.Assign) and isinstance(m.value, ast.Constant) and m.value.value is None:
+                        for x in m.targets:
+                            none_stores.add(id(x))
+                for m in ast.walk(n2):
+                    if isinstance(m, ast.Attribute) and m.attr in (M, K):
+                        inside_G = (q2 == q)
+                        if isinstance(m.ctx, ast.Store):
+                            if not (inside_G or n2.name == "__init__" or (m.attr == M and id(m) in none_stores)):
+                                bad = "%s stores %s" % (q2, m.attr)
+                        elif not inside_G:
+                            bad = "%s loads %s" % (q2, m.attr)
+            if bad:
+                continue
+            # loads inside G: K only in the test; M in the test or in top-level statements after the if
+            after = set()
+            for x in G.body[i + 1:]:
+                for m in ast.walk(x):
+                    after.add(id(m))
+            intest = set(id(m) for m in ast.walk(st.test))
+            ok = True
+            for m in ast.walk(G):
+                if isinstance(m, ast.Attribute) and m.attr in (M, K) and isinstance(m.ctx, ast.Load):
+                    if id(m) in intest:
+                        continue
+                    if m.attr == M and id(m) in after:
+                        continue
+                    ok = False
+            # h must not load M / K, and its two assignments are its last statements, outside any branch
+            for m in ast.walk(h):
+                if isinstance(m, ast.Attribute) and m.attr in (M, K) and isinstance(m.ctx, ast.Load):
+                    ok = False
+            if not ok:
+                continue
+            conc = [k for k in ELEMENT_CLASSES if _derives(bases, k, c)]
+            # no run-time function outside elements.py touches the two names (no property returns them: checked through reads)
+            for k in conc:
+                for f in (M, K):
+                    for nm in (f,):
+                        if reads.get(nm):
+                            ok = False
+            if ok and conc:
+                ev = ("%s: `if self.%s is None or %s != self.%s: %s(...)` at elements.py:%d; %s assigns self.%s = %s and self.%s together as its "
+                      "last statements; every other load of self.%s follows that test; nothing else loads or stores either field"
+                      % (q, M, E, K, hname, st.lineno, hname, K, ast.unparse(e2), M, M))
+                for k in conc:
+                    out.append((k, M, K, ev))
+    return out
+
+
+def not_read_before_write(wntr, inst, R, written, action_names):
+    """(slots, evidence lines, per-slot decisions for the not-reset slots)"""
+    vocab = computed_attribute_vocabulary(action_names)
+    reads = collect_reads(wntr, inst, R, vocab)
+    out, ev, decisions = [], [], {}
+    for slot in sorted(written):
+        fr = first_read(slot, inst, R, reads)
+        decisions[slot] = ("out", "rule (i) fails: read as " + fr) if fr else ("in", "rule (i): no run-time Load of %s"
+                                                                               % sorted(slot_reader_names(slot, inst, R)[0]))
+        if fr is None:
+            out.append(slot)
+            ev.append("notReadBeforeWrite %s.%s -- (i) never read: none of the names %s is loaded in the run-time closure of either simulator "
+                      "on an object that can be a %s" % (slot[0], slot[1], sorted(slot_reader_names(slot, inst, R)[0]), slot[0]))
+    # (ii) protocol fields of the control classes
+    for f in sorted(set(s[1] for s in written if s[0] in CONTROL_CLASSES and not s[1].startswith("_condition."))):
+        slots = [s for s in sorted(written) if s[0] in CONTROL_CLASSES and s[1] == f and s not in out]
+        if not slots:
+            continue
+        ok, why = protocol_write_before_read(f)
+        for sl in slots:
+            if ok:
+                out.append(sl)
+                ev.append("notReadBeforeWrite %s.%s -- (ii) write dominates read: %s" % (sl[0], sl[1], why))
+                decisions[sl] = ("in", "rule (ii): " + why)
+            else:
+                decisions[sl] = ("out", decisions[sl][1] + "; rule (ii) fails: " + why)
+    # (ii') _condition.<F>: every evaluate() that assigns F assigns it on every path; composite conditions must evaluate all children
+    for f in sorted(set(s[1] for s in written if s[0] in CONTROL_CLASSES and s[1].startswith("_condition."))):
+        slots = [s for s in sorted(written) if s[0] in CONTROL_CLASSES and s[1] == f and s not in out]
+        if not slots:
+            continue
+        ok, why = condition_field_all_paths(f.split(".", 1)[1])
+        for sl in slots:
+            if ok:
+                out.append(sl)
+                ev.append("notReadBeforeWrite %s.%s -- (ii) %s" % (sl[0], sl[1], why))
+                decisions[sl] = ("in", "rule (ii): " + why)
+            else:
+                decisions[sl] = ("out", decisions[sl][1] + "; rule (ii) fails: " + why)
+    # (iii) key-guarded memos
+    for (c, M, K, why) in guarded_memo_pairs(wntr, inst, R, reads):
+        for f in (M, K):
+            if (c, f) in written and (c, f) not in out:
+                out.append((c, f))
+                ev.append("notReadBeforeWrite %s.%s -- (iii) key-guarded memo: %s" % (c, f, why))
+                decisions[(c, f)] = ("in", "rule (iii): " + why)
+    return sorted(set(out)), ev, decisions, vocab
+
+
+def _definitely_assigns(body, field):
+    """every path through the statement list that reaches its end or a `return` has assigned self.<field> before"""
+    def assigns(st):
+        return isinstance(st, ast.Assign) and any(isinstance(t, ast.Attribute) and t.attr == field and isinstance(t.value, ast.Name)
+                                                  and t.value.id == "self" for t in st.targets)
+
+    def walk(stmts, done):
+        """returns (ok, done_at_end); ok False when a return is reached without assignment"""
+        for st in stmts:
+            if assigns(st):
+                done = True
+            elif isinstance(st, ast.Return):
+                return done, True   # path ends; nothing after counts
+            elif isinstance(st, ast.Raise):
+                return True, True
+            elif isinstance(st, ast.If):
+                ok1, d1 = walk(st.body, done)
+                ok2, d2 = walk(st.orelse, done)
+                if not (ok1 and ok2):
+                    return False, False
+                done = d1 and d2
+            elif isinstance(st, (ast.For, ast.While, ast.With, ast.Try)):
+                for sub in ("body", "orelse", "finalbody"):
+                    ok1, _ = walk(getattr(st, sub, []) or [], done)
+                    if not ok1:
+                        return False, False
+        return True, done
+
+    ok, done = walk(body, False)
+    return ok and done
+
+
+def condition_field_all_paths(field):
+    """(ok, evidence / reason) for a field of the condition classes that evaluate() assigns"""
+    t = _parse("wntr/network/controls.py")
+    bases = _class_bases(t)
+    good, never, bad = [], [], []
+    evals = {}
+    for q, n, c in _functions_of(t):
+        if c and _derives(bases, c, "ControlCondition") and n.name == "evaluate":
+            evals[c] = n
+    # stores outside evaluate / __init__ / _reset break the rule
+    for q, n, c in _functions_of(t):
+        if c and _derives(bases, c, "ControlCondition") and n.name not in ("evaluate", "__init__", "_reset", "__new__"):
+            for m in ast.walk(n):
+                if isinstance(m, ast.Attribute) and m.attr == field and isinstance(m.ctx, ast.Store):
+                    bad.append("%s assigns it outside evaluate" % q)
+    for c, n in sorted(evals.items()):
+        stores = any(isinstance(m, ast.Attribute) and m.attr == field and isinstance(m.ctx, ast.Store) for m in ast.walk(n))
+        loads = any(isinstance(m, ast.Attribute) and m.attr == field and isinstance(m.ctx, ast.Load) for m in ast.walk(n))
+        if stores and loads:
+            bad.append("%s.evaluate reads %s itself (its value from the previous evaluation is state)" % (c, field))
+        elif not stores:
+            never.append(c)
+        elif _definitely_assigns(n.body, field):
+            good.append(c)
+        else:
+            bad.append("%s.evaluate assigns it on some paths only" % c)
+    # a reader property on a composite condition that reads its children's value while evaluate() may skip a child (short circuit)
+    readers = control_reader_names(field)
+    for q, n, c in _functions_of(t):
+        if c and _derives(bases, c, "ControlCondition") and n.name in readers and n.name != field:
+            kids = [m for m in ast.walk(n) if isinstance(m, ast.Attribute) and m.attr in readers and isinstance(m.value, ast.Attribute)
+                    and isinstance(m.value.value, ast.Name) and m.value.value.id == "self"]
+            if kids and c in evals:
+                if any(isinstance(m, ast.BoolOp) for m in ast.walk(evals[c])):
+                    bad.append("%s.%s reads its children's %s but %s.evaluate short-circuits (`and` / `or`), so a child may not have been "
+                               "evaluated in this run" % (c, n.name, n.name, c))
+    if bad:
+        return False, "; ".join(bad) + " [assigned on every path by: %s; never assigned by: %s]" % (good, never)
+    return True, "every evaluate() that assigns %s does so on every path (%s); the others never assign it (%s)" % (field, good, never)
+
+
 # =================================================================================================== Lean output
 
 
@@ -1009,8 +1594,10 @@ def gen_lean(tabs):
                       "_InternalControlAction writes (internal attributes used by the simulator-generated controls in wntr/sim/core.py)",
                       tabs["writtenByActions"])
     out += _lean_list("writtenBySim",
-                      "slots assigned by the simulator code paths (core.py time loop, isolation, hydraulics.store_results_in_network, tank "
-                      "head updates, epanet.py), other than through control actions", tabs["writtenBySim"])
+                      "slots assigned by the code paths of BOTH simulators (WNTRSimulator: core.py time loop, isolation, "
+                      "hydraulics.store_results_in_network, tank head updates, control / condition bookkeeping; EpanetSimulator: epanet.py, "
+                      "write_inpfile and the InpFile.write closure -- listed separately as writtenByEpanet), other than through control actions",
+                      tabs["writtenBySim"])
     out.append("def written : List Slot := writtenByActions ++ writtenBySim")
     out += _lean_list("toDictReads", "slots to_dict reads", tabs["toDictReads"])
     out += _lean_list("resetAssigns", "slots reset_initial_values assigns (incl. what control._reset() assigns, class \"Control\"/\"Rule\"...)",
@@ -1019,6 +1606,14 @@ def gen_lean(tabs):
     out += _lean_list("runInitialises",
                       "written slots that a run only ever writes before reading within the same run (pure outputs), with the evidence; "
                       "may be empty. Evidence: " + ev.replace("-/", "- /"), tabs["runInitialises"])
+    for line in tabs["nrbwEvidence"]:
+        out.append("-- " + line.replace("\n", " ").replace("-/", "- /")[:600])
+    out += _lean_list("notReadBeforeWrite",
+                      "written slots for which the translator shows by ast that no run-time code path reads the slot's value before assigning "
+                      "it, or reads it at all (per slot the evidence is in the comment lines above)", tabs["notReadBeforeWrite"])
+    out += _lean_list("writtenByEpanet",
+                      "slots EpanetSimulator.run_sim (and what it calls on the SAME wn: write_inpfile → InpFile.write → _write_*) can assign on wn objects",
+                      tabs["writtenByEpanet"])
     out.append("end Wntr.Frame.Gen")
     return "\n".join(out) + "\n"
 
@@ -1033,9 +1628,17 @@ def build_tables():
     RS = reset_assigns(wntr, wn, inst, R)
     written = set(act) | set(S.slots)
     ri, riwhy = run_initialises(written)
+    E = epanet_write_tables(wntr, inst, R)
+    nrbw, nrbw_ev, decisions, vocab = not_read_before_write(wntr, inst, R, written, list(attr_names) + list(mapping.values()) + list(internal))
+    not_reset = [x for x in sorted(written) if x not in set(RS.slots)]
+    nrbw_ev = (["notReadBeforeWrite: computed attribute names (getattr(obj, <computed>) in conditions / change tracker) are taken from %s" % vocab]
+               + nrbw_ev
+               + ["notReadBeforeWrite: OUT %s.%s -- %s" % (x[0], x[1], decisions[x][1]) for x in not_reset if decisions.get(x, ("in",))[0] == "out"])
     tabs = {
         "writtenByActions": sorted(act), "writtenBySim": sorted(S.slots), "toDictReads": sorted(reads),
         "resetAssigns": sorted(RS.slots), "runInitialises": ri, "runInitialisesWhy": riwhy,
+        "notReadBeforeWrite": nrbw, "nrbwEvidence": nrbw_ev, "writtenByEpanet": sorted(E.slots),
+        "nrbwDecisions": {"%s.%s" % k: list(v) for k, v in decisions.items()},
         "notes": ["ControlAction attribute -> private attribute: %s; attribute names in use: %s; internal attributes: %s"
                   % (json.dumps(mapping, sort_keys=True), attr_names, internal)] + notes
                  + ["assignments to `self.<x>` of simulator-internal objects not listed: %d" % S.nself],
@@ -1890,6 +2493,7 @@ class Judge:
     def __init__(self, wntr, tabs, tmpdir, ctx=None):
         self.wntr, self.tabs, self.tmpdir, self.ctx = wntr, tabs, tmpdir, ctx
         self.written = set(tabs["writtenByActions"]) | set(tabs["writtenBySim"])
+        self.written_epanet = set(tabs["writtenByEpanet"])
         self.uncovered = {}  # slot -> where (tie d)
         self.uncovered_reads = {}
         self.reads_by_cls = {}
@@ -1912,9 +2516,10 @@ class Judge:
         return out
 
     def _cover(self, tr, simname):
+        allowed = self.written_epanet if simname == "EpanetSimulator" else self.written
         for slot, where in tr.observed.items():
-            self.count("write:%s.%s" % slot)
-            if slot not in self.written:
+            self.count(("epanet-write:%s.%s" if simname == "EpanetSimulator" else "write:%s.%s") % slot)
+            if slot not in allowed:
                 self.uncovered.setdefault(slot, "%s: %s" % (simname, where))
 
     def _epanet(self, wn, trace=True):
@@ -2251,6 +2856,12 @@ class C11(Check):
         ctx.cov["overlap_written_toDictReads"] = ["%s.%s" % s for s in overlap(w, tabs["toDictReads"])]
         ctx.cov["missing_written_resetAssigns"] = ["%s.%s" % s for s in missing(w, tabs["resetAssigns"])]
         ctx.cov["dropped_assignments"] = tabs["dropped"][:40]
+        ctx.cov["tables"].update({k: len(tabs[k]) for k in ("notReadBeforeWrite", "writtenByEpanet")})
+        ctx.cov["notReadBeforeWrite"] = ["%s.%s" % x for x in tabs["notReadBeforeWrite"]]
+        ctx.cov["writtenByEpanet"] = ["%s.%s" % x for x in tabs["writtenByEpanet"]]
+        ctx.cov["overlap_writtenByEpanet_toDictReads"] = ["%s.%s" % x for x in overlap(tabs["writtenByEpanet"], tabs["toDictReads"])]
+        ctx.cov["not_reset_decisions"] = {k: v for k, v in tabs["nrbwDecisions"].items()
+                                          if tuple(k.split(".", 1)) in set(missing(w, tabs["resetAssigns"]))}
         vlib.write_if_changed(os.path.join(vlib.GEN, "FrameC11.lean"), gen_lean(tabs))
 
     # ---------------------------------------------------------------- static guard (what Props/C11.lean decides, mirrored)
@@ -2263,6 +2874,13 @@ class C11(Check):
             where = {("%s.%s" % s): tabs["where"]["written"].get("%s.%s" % s, [])[:3] for s in ov}
             broken.append(Broken("proof", "Gen.written ∩ Gen.toDictReads grew",
                                  "slots a run can assign that to_dict reads: %s" % json.dumps(where, sort_keys=True)))
+        for nm in ("notReadBeforeWrite", "writtenByEpanet"):
+            extra = [x for x in tabs[nm] if x not in set(w)]
+            if extra:
+                broken.append(Broken("translator", "Gen.%s is not a subset of Gen.written" % nm, "slots %s" % extra))
+        eo = [x for x in overlap(tabs["writtenByEpanet"], tabs["toDictReads"]) if x not in KNOWN_OVERLAP]
+        if eo:
+            broken.append(Broken("proof", "Gen.writtenByEpanet ∩ Gen.toDictReads grew", "slots %s" % eo))
         ms = [s for s in missing(w, tabs["resetAssigns"]) if s not in KNOWN_MISSING and s not in ri]
         if ms:
             where = {("%s.%s" % s): tabs["where"]["written"].get("%s.%s" % s, [])[:3] for s in ms}
@@ -2337,8 +2955,9 @@ class C11(Check):
         ctx.cov["simulator_runs"] = ctx.cov.get("simulator_runs", 0) + J.nruns
         broken = []
         for slot, where in sorted(J.uncovered.items()):
-            broken.append(Broken("correspondence", "C11 write trace not covered by Gen.written",
-                                 "run-time assignment to slot %s.%s observed at %s; the static tables do not list it" % (slot[0], slot[1], where)))
+            tab = "Gen.writtenByEpanet" if where.startswith("EpanetSimulator") else "Gen.written"
+            broken.append(Broken("correspondence", "C11 write trace not covered by " + tab,
+                                 "run-time assignment to slot %s.%s observed at %s; %s does not list it" % (slot[0], slot[1], where, tab)))
         for slot, where in sorted(J.uncovered_reads.items()):
             broken.append(Broken("correspondence", "C11 to_dict read trace not covered by Gen.toDictReads",
                                  "%s; slot %s.%s is not in the static table (nor a path above / below it)" % (where, slot[0], slot[1])))
